@@ -892,6 +892,7 @@ func slowest(obls []*Obligation, n int) []map[string]interface{} {
 func labelledContractObligations(prop, tier string) []emitObl {
 	targets := map[string]*regexp.Regexp{
 		"C07": regexp.MustCompile(`parser\.CppGenerator\)\.generateCodeForPacket$`),
+		"C01": regexp.MustCompile(`model\.NewConfiguration$`), // options -> Configuration: shared with C08
 		"C05": regexp.MustCompile(`PacketDslVisitorImpl\)\.VisitMatchPair$`),
 		"C06": regexp.MustCompile(`PacketDslVisitorImpl\)\.(VisitCheckSumFieldDeclaration|VisitFieldDefinitionWithAttribute|VisitFieldDefinition|VisitMatchFieldDeclaration|VisitLengthFieldDeclaration|VisitInerObjectField|metaDataDeclarationToField)$`),
 	}
@@ -904,7 +905,7 @@ func labelledContractObligations(prop, tier string) []emitObl {
 	spec := &PropSpec{ID: prop, Kinds: []string{"POST", "PRE", "INV", "SAFE"}, FuncMatch: re,
 		// the labelled postconditions and the loop invariants they rest on
 		Own: func(o *Obligation) bool {
-			if strings.Contains(o.Name, prop+":") {
+			if strings.Contains(o.Name, prop+":") || prop == "C01" && strings.Contains(o.Name, "C08:") && strings.Contains(o.Func, "NewConfiguration") {
 				return true
 			}
 			if o.Kind != "INV" {
